@@ -113,7 +113,7 @@ def run(ctx):
                                                "fails": fails})
     for rec, fails in rrej:
         ctx.violation("real-geometry " + c08.key_of(rec, fails),
-                      {"record": {"id": rec["id"], "D": rec["D"], "seed": rec["seed"], "kind": "random"}, "fails": fails})
+                      {"record": {"id": rec["id"], "D": rec["D"], "seed": rec["seed"], "kind": "combine" if rec["id"].startswith("combine/") else "random"}, "fails": fails})
 
 
 def replay(ctx, rec):
